@@ -1,9 +1,10 @@
-// LD_PRELOAD shim used by the defect reproductions (E1, E2): logs write/pwrite/fsync/fdatasync on
+// LD_PRELOAD shim used by the defect reproductions (E1, E2): logs write/pwrite/pwrite64/fsync/fdatasync on
 // regular files to $IOSHIM_LOG ("W <fd> <offset> <len>" / "S <fd> <result>") and makes the fsync whose
 // ordinal (1-based, counted over the process) equals the integer stored in the file $IOSHIM_CTL fail with EIO.
 // If $IOSHIM_CTL holds "W <n>" instead, the n-th write (1-based, counted over the process) to a matching file
 // fails with EIO without writing anything ("W <fd> <offset> <len> FAIL" is logged).  "P <n> <len>" makes the n-th write
-// short (<len> bytes) and the following write call fail: a short write followed by an error.
+// short (<len> bytes) and the following write call fail: a short write followed by an error.  "Q <n> <len>": the n-th write is
+// short and nothing fails (a correct caller writes the rest).
 #define _GNU_SOURCE
 #include <dlfcn.h>
 #include <errno.h>
@@ -39,13 +40,18 @@ static int is_db(int fd) {
     return tag && strstr(path, tag) != 0;
 }
 static int nwrite = 0;
-ssize_t write(int fd, const void *buf, size_t len) {
-    static ssize_t (*real)(int, const void *, size_t) = 0;
-    if (!real) real = dlsym(RTLD_NEXT, "write");
+// one write call on a database file, positioned (pwrite / pwrite64: `pos` >= 0 is the file offset) or not (write: the offset is the
+// file cursor); the same faults apply to both, so a commit path that uses positioned writes is observed and faulted the same way
+static ssize_t do_write(int fd, const void *buf, size_t len, long long pos) {
+    static ssize_t (*rwrite)(int, const void *, size_t) = 0;
+    static ssize_t (*rpwrite)(int, const void *, size_t, off_t) = 0;
+    if (!rwrite) rwrite = dlsym(RTLD_NEXT, "write");
+    if (!rpwrite) rpwrite = dlsym(RTLD_NEXT, "pwrite");
     if (is_db(fd)) {
         char l[128];
+        long long off = pos >= 0 ? pos : (long long)lseek(fd, 0, SEEK_CUR);
         nwrite++;
-        int failw = -1, shortw = -1, shortlen = 0;
+        int failw = -1, shortw = -1, shortlen = 0, short_only = 0;
         const char *ctl = getenv("IOSHIM_CTL");
         if (ctl) {
             FILE *f = fopen(ctl, "r");
@@ -54,10 +60,12 @@ ssize_t write(int fd, const void *buf, size_t len) {
                 int got = fscanf(f, " %c %d %d", &mode, &a, &b);
                 if (got >= 2 && mode == 'W') failw = a;
                 if (got >= 3 && mode == 'P') { shortw = a; shortlen = b; }
+                // "Q <n> <len>": the n-th write is SHORT and nothing fails afterwards (the caller is expected to write the rest)
+                if (got >= 3 && mode == 'Q') { shortw = a; shortlen = b; short_only = 1; }
                 // "H <limit> <len>": the first write at a file offset below <limit> (a header page) is short, the next call fails
                 if (got >= 3 && mode == 'H') {
                     static int armed_at = -1;
-                    if (armed_at < 0 && lseek(fd, 0, SEEK_CUR) < (off_t)a) armed_at = nwrite;
+                    if (armed_at < 0 && off < (long long)a) armed_at = nwrite;
                     if (armed_at >= 0) { shortw = armed_at; shortlen = b; }
                 }
                 fclose(f);
@@ -66,22 +74,25 @@ ssize_t write(int fd, const void *buf, size_t len) {
         // "P <n> <len>": the n-th write is SHORT (only the first <len> bytes reach the file), and the call that follows
         // it (write_all's retry with the rest) fails with EIO: "short write then error"
         if (shortw == nwrite && (size_t)shortlen < len) {
-            snprintf(l, sizeof l, "W %d %lld %d SHORT\n", fd, (long long)lseek(fd, 0, SEEK_CUR), shortlen);
+            snprintf(l, sizeof l, "W %d %lld %d SHORT\n", fd, off, shortlen);
             logline(l);
-            return real(fd, buf, (size_t)shortlen);
+            return pos >= 0 ? rpwrite(fd, buf, (size_t)shortlen, (off_t)pos) : rwrite(fd, buf, (size_t)shortlen);
         }
-        if (shortw >= 0 && shortw + 1 == nwrite) failw = nwrite;
+        if (shortw >= 0 && !short_only && shortw + 1 == nwrite) failw = nwrite;
         if (failw == nwrite) {
-            snprintf(l, sizeof l, "W %d %lld %zu FAIL\n", fd, (long long)lseek(fd, 0, SEEK_CUR), len);
+            snprintf(l, sizeof l, "W %d %lld %zu FAIL\n", fd, off, len);
             logline(l);
             errno = EIO;
             return -1;
         }
-        snprintf(l, sizeof l, "W %d %lld %zu\n", fd, (long long)lseek(fd, 0, SEEK_CUR), len);
+        snprintf(l, sizeof l, "W %d %lld %zu\n", fd, off, len);
         logline(l);
     }
-    return real(fd, buf, len);
+    return pos >= 0 ? rpwrite(fd, buf, len, (off_t)pos) : rwrite(fd, buf, len);
 }
+ssize_t write(int fd, const void *buf, size_t len) { return do_write(fd, buf, len, -1); }
+ssize_t pwrite(int fd, const void *buf, size_t len, off_t pos) { return do_write(fd, buf, len, (long long)pos); }
+ssize_t pwrite64(int fd, const void *buf, size_t len, off64_t pos) { return do_write(fd, buf, len, (long long)pos); }
 static int sync_common(int fd, int (*real)(int)) {
     if (!is_db(fd)) return real(fd);
     nsync++;
